@@ -136,6 +136,11 @@ func (u *Unmarshaler) fillSlice(fieldType reflect.Type, value reflect.Value,
 
 	refValue := reflect.ValueOf(mapValue)
 	if refValue.Kind() != reflect.Slice {
+		// a nil value (e.g. null as a map element) has no type to report
+		if !refValue.IsValid() {
+			return newTypeMismatchErrorWithHint(fullName, reflect.Slice.String(), "nil")
+		}
+
 		return newTypeMismatchErrorWithHint(fullName, reflect.Slice.String(), refValue.Type().String())
 	}
 	if refValue.IsNil() {
